@@ -116,4 +116,5 @@ let handle (cmd : string) (args : t list) : t option =
     Some (match create_query (lit_of_table (lit_table_of_sexp lt)) (segs_of_sexp sg) (pyval_of_sexp v) (opt_n vo) d with
         | ROk ((d', _), _) -> L [A "done"; canon_doc d']
         | RErr e -> L [A "failed"; family e; canon_doc d])
+  | "create-guard", [d; sg] -> Some (L [bs (creates (node_of_sexp d) (segs_of_sexp sg))])
   | _ -> None
